@@ -374,6 +374,15 @@ pub fn own_props(prop: &str) -> Vec<String> {
     v.iter().map(|x| x.to_string()).collect()
 }
 
+/// `--own C01,C02,..`: the monitors that are verdict bearing for this job (composite jobs: the
+/// continued history after an injected fault is judged by the base monitors, differentially)
+pub fn own_of(args: &Args, prop: &str) -> Vec<String> {
+    match args.m.get("own") {
+        Some(l) => l.split(',').map(|x| x.to_string()).chain(std::iter::once(prop.to_string())).collect(),
+        None => own_props(prop),
+    }
+}
+
 fn profile_of(s: &str) -> Profile {
     match s {
         "weak" => Profile::Weak,
@@ -399,6 +408,7 @@ pub fn cfg_from(args: &Args) -> GenCfg {
         storm: args.flag("storm"),
         handles: args.flag("handles"),
         dfaults: args.flag("dfaults"),
+        twin: args.flag("twin"),
     }
 }
 
@@ -413,7 +423,7 @@ fn replay_json(mode: &str, args: &Args, hs: u64, idx: u64) -> J {
 }
 
 fn post_process(prop: &str, cfg: &GenCfg, r: &mut HistResult) {
-    if prop == "C11" {
+    if prop == "C11" || cfg.twin {
         diff::c11_filter(cfg.n_arenas as usize, r);
     }
     if prop == "C20" && cfg.n_arenas > 1 {
@@ -432,7 +442,7 @@ fn mode_random(args: &Args) {
     let trace = args.flag("trace");
     let base_cfg = cfg_from(args);
     let mut agg = Agg::new();
-    agg.own = own_props(&prop);
+    agg.own = own_of(args, &prop);
     let mut idx = shard;
     let pacing_cycle = args.flag("pacing-cycle");
     while idx < count {
@@ -473,7 +483,7 @@ fn mode_replay(args: &Args) {
     let mut r = run_random(&cfg, hs, true);
     post_process(&prop, &cfg, &mut r);
     let mut agg = Agg::new();
-    agg.own = own_props(&prop);
+    agg.own = own_of(args, &prop);
     agg.add(&prop, &r, replay_json("random", args, hs, 0), true);
     agg.summary(J::obj());
 }
